@@ -1,6 +1,6 @@
 (* Props_C03.v — property C03: ONLY theorem statements, each closed by [exact] of a lemma from
    C03_Proofs*, followed by Print Assumptions. *)
-From Verif Require Import Base C03_Model C03_Proofs C03_Proofs2 C03_Proofs3 C03_Proofs4 C03_Proofs5.
+From Verif Require Import Base C03_Model C03_Proofs C03_Proofs2 C03_Proofs3 C03_Proofs4 C03_Proofs5 C03_Proofs6.
 Open Scope Z_scope.
 
 (* codec round trip, per kind and composed structurally (pointers, Null wrappers, custom
@@ -164,6 +164,19 @@ Theorem c03_create_call_roundtrip : forall fs now reversed prio ph o base recs a
 Proof. exact create_roundtrip. Qed.
 Print Assumptions c03_create_call_roundtrip.
 
+(* ... and for model types WITHOUT any database-generated column (string key, composite key without
+   auto-increment): the same for the whole call with or without RETURNING and in both LastInsertId
+   directions - nothing has to be loaded back, whatever LastInsertId delivers is not written *)
+Theorem c03_create_call_roundtrip_nodef : forall fs now returning reversed prio ph o base recs after rows m,
+  Forall wf_fdesc fs -> existsb is_dbdef fs = false -> Forall (wf_rec fs) recs ->
+  match o with OpStruct | OpSlice | OpPtrSlice | OpBatches _ => True | _ => False end ->
+  create fs now returning reversed prio ph o base recs = Some (after, rows, m) ->
+  length rows = length after /\
+  forall i, (i < length after)%nat -> forall j d, (j < length fs)%nat ->
+    nth j (read_rec fs (nth i rows [])) GAbsent = norm (fd_kind (nth j fs d)) (nth j (nth i after []) GAbsent).
+Proof. exact create_roundtrip_nodef. Qed.
+Print Assumptions c03_create_call_roundtrip_nodef.
+
 (* non-vacuity *)
 Example c03_roundtrip_instance :
   wfk (KPtr (KNull (KInt 8))) = true /\ wtb (KPtr (KNull (KInt 8))) (GSome (GSome (GInt (-128)))) = true
@@ -186,4 +199,16 @@ Example c03_owner_instance :
                FLeaf "Title" "title"; FEmbed "Other" "" [FLeaf "Memo" "note"]]%string in
   dbnames tree = [("id", ["Base"; "ID"]); ("title", ["Title"]); ("note", ["Base"; "Note"])]%string
   /\ owner_of (fields_of tree) "title"%string = Some ["Title"%string].
+Proof. vm_compute. split; reflexivity. Qed.
+
+(* a whole call over two statements (CreateInBatches 2 of 3 records) satisfies the hypotheses of
+   c03_create_call_roundtrip and stores / returns what the theorem says *)
+Example c03_call_instance :
+  let f := mk_fd ["ID"%string] "id"%string (KUint 64) true true true None None 0 0 false in
+  let g := mk_fd ["V"%string] "v"%string KStr false false false None None 0 0 false in
+  existsb is_dbdef [f; g] = true
+  /\ create [f; g] 0 true true "id"%string true (OpBatches 2) 7
+             [[GInt 0; GStr "a"]; [GInt 10; GStr "b"]; [GInt 0; GStr "c"]]
+     = Some ([[GInt 8; GStr "a"]; [GInt 10; GStr "b"]; [GInt 11; GStr "c"]],
+             [[DInt 8; DText "a"]; [DInt 10; DText "b"]; [DInt 11; DText "c"]], 0).
 Proof. vm_compute. split; reflexivity. Qed.
